@@ -174,7 +174,10 @@ def check(ctx):
     its = [t for t in tests if t.startswith("type(expr) is type(iter(")]
     ctx.ob("SIB.containers", du, "delayed.unpack_collections materialises list/tuple/set iterators", len(its) == 3, f"{len(its)} iterator kinds")
     ok = bool(find("args = Task(None, typ, args)", du)) and any(has_fact(inline_facts(du, n), "typ is list", False) is not None for n, _ in find("args = Task(None, typ, args)", du))
+    wraps = find("args = Task(None, typ, args)", du)
+    unconditional = bool(wraps) and all(not any("_return_collections" in unparse(e) for e, _ in cfg_of(du).facts(n)) for n, _ in wraps)
     ctx.ob("SIB.containers.type", du, "non-list sequences are rebuilt with their own type", ok)
+    ctx.ob("SIB.containers.type-nested", du, "the type is restored at every nesting level (not only when _return_collections)", unconditional, "" if unconditional else "tuples/sets nested inside other containers (the recursive calls pass _return_collections=False) come back as lists")
     ok = bool(find("args = Dict([[k, v] for k, v in zip(keyargs, valargs)])", du))
     ctx.ob("SIB.containers.dict-pairs", du, "dict keys and values are re-paired positionally", ok)
 
